@@ -32,9 +32,18 @@ def worker(job):
     import dagmon
     import driver
     rng = random.Random(job['seed'])
-    cases = [dagcase.gen_case(rng, max_tids=job['max_tids'], backend=job.get('backend')) for _ in range(job['n'])]
+    only_extdel = job.get('mode') == 'extdel'
+    cases = [dagcase.gen_case(rng, max_tids=job['max_tids'], backend=job.get('backend')) for _ in range(0 if only_extdel else job['n'])]
     cases = job.get('corpus', []) + cases
-    for _ in range(max(1, job['n'] // 25)):
+    # another actor UNCACHES a task during the run (before it is submitted / after it was loaded); own generator stream
+    rng_x = random.Random(job['seed'] * 31 + 17)
+    extdel_cases = []
+    for i in range(job['n'] if only_extdel else max(2, job['n'] // 25)):
+        c = dagcase.gen_extdel_case(rng_x, variant='AAB'[i % 3], max_tids=max(3, job['max_tids']),
+                                    backend=job.get('backend') or ('serial', 'fork', 'spawn', 'fork')[i % 4])
+        if c is not None:
+            extdel_cases.append(c)
+    for _ in range(0 if only_extdel else max(1, job['n'] // 25)):
         c = dagcase.gen_ext_case(rng, max_tids=job['max_tids'], backend=job.get('backend'))
         if c is not None:
             cases.append(c)
@@ -42,6 +51,10 @@ def worker(job):
         if c is not None:
             cases.append(c)
     cases = [normalise(c) for c in cases]
+    extdel_cases = [normalise(c) for c in extdel_cases]
+    # for 6 of 16 cases the task objects given to run_tasks are pickled / deep-copied COPIES (same model line)
+    n_corpus = len(job.get('corpus', []))
+    cases = cases[:n_corpus] + [dagcase.choose_copies(c) for c in cases[n_corpus:]] + extdel_cases
     lines = [dagcase.encode(c) for c in cases]
     model = driver.run_lines(lines)
     wd = tempfile.mkdtemp(prefix='verif-dag-')
@@ -57,11 +70,25 @@ def worker(job):
             obs, recs = dagcase.run_real(c, wd)
             rec = recs[0]
             rep['evaluations'] += 1
+            if c.get('pk'):
+                bump('task_objects_are_copies:' + dagcase.PK_KINDS[c['pk']])
+            while dagcase.COPY_FAILED:
+                bump('copying_the_task_objects_raised:%s:%s' % dagcase.COPY_FAILED.pop())
             if c.get('ext'):
                 # another writer acts during the run: outside the models (CacheStable); property monitor only
                 bump('external_writer_cases')
                 for v in dagmon.monitor_ext(c, rec):
                     rep['violations'].append(dict(property='C03', what=v, case=c, line=line, real=obs))
+                continue
+            if c.get('extdel') is not None:
+                # another actor removes an entry during the run: outside the models (CacheStable); property monitors only
+                viol, mode = dagmon.monitor_extdel(c, rec)
+                bump('external_uncache_cases')
+                bump('external_uncache:' + {'A': 'entry_removed_before_the_task_was_submitted', 'B': 'entry_removed_after_the_task_was_loaded',
+                                            None: 'not_triggered'}[mode])
+                for pid, vs in viol.items():
+                    for v in vs[:3]:
+                        rep['violations'].append(dict(property=pid, what=v, case=c, line=line, real=obs))
                 continue
             if c.get('poison'):
                 # a torn entry: what a load of it does is C13's subject; here only "cached => loaded, not executed"
@@ -141,14 +168,14 @@ def tuplify(x):
     return x
 
 
-def explore(*, seed, n_cases, max_tids, workers=12, backend=None, corpus=None, timeout=1500):
+def explore(*, seed, n_cases, max_tids, workers=12, backend=None, corpus=None, timeout=1500, mode=None):
     """returns the merged report"""
     tmp = tempfile.mkdtemp(prefix='verif-dagrun-')
     per = max(1, (n_cases + workers - 1) // workers)
     procs = []
     try:
         for w in range(workers):
-            job = dict(seed=seed * 1000 + w, n=per, max_tids=max_tids, backend=backend,
+            job = dict(seed=seed * 1000 + w, n=per, max_tids=max_tids, backend=backend, mode=mode,
                        corpus=(corpus or []) if w == 0 else [])
             jp, rp = os.path.join(tmp, f'job{w}.json'), os.path.join(tmp, f'rep{w}.json')
             json.dump(job, open(jp, 'w'))
